@@ -148,6 +148,11 @@ fn run_case(self_exe: &str, brush: &str, bash: &str, root: &Path, n: usize, whic
         .env("P", format!("{self_exe} --probe"))
         .env("C10_OUT", &repp).env("C10_W", &w).env("C10_BASE", &base)
         .stdin(std::process::Stdio::null()).stdout(fo).stderr(fe);
+    {
+        // own process group: a script that loops for ever in a subshell is killed with all its descendants
+        use std::os::unix::process::CommandExt;
+        cmd.process_group(0);
+    }
     let rc = match cmd.spawn() {
         Ok(mut ch) => {
             let t0 = std::time::Instant::now();
@@ -159,6 +164,8 @@ fn run_case(self_exe: &str, brush: &str, bash: &str, root: &Path, n: usize, whic
                     }
                     Ok(None) => {
                         if t0.elapsed().as_secs() > 20 {
+                            let _ = std::process::Command::new("kill").args(["-9", &format!("-{}", ch.id())])
+                                .stdout(std::process::Stdio::null()).stderr(std::process::Stdio::null()).status();
                             let _ = ch.kill();
                             let _ = ch.wait();
                             break "timeout".to_string();
